@@ -11,7 +11,8 @@ from fractions import Fraction
 import numpy as np
 from common import *
 
-IMPORTS = "From CV Require Import Base.Cmp Base.Ext Model.C02_MH Proofs.C02_Balance.\nFrom Coq Require Import QArith."
+IMPORTS = ("From CV Require Import Base.Cmp Base.Ext Model.C02_MH Model.C02_Tune Proofs.C02_Balance.\n"
+           "From Coq Require Import QArith Reals Lra.\nFrom Interval Require Import Tactic.")
 RULE = ("one case = one transition (or one 3-step chain) of one sampler site (10 sites: 5 kernels x 2 interfaces) on one target "
         "(quadratic / quartic user-defined log-densities with optional NaN/-inf/+inf region, cuqi Gaussian posteriors with integer "
         "matrices), dims 1-3, scales scalar/vector/tiny/>1, histories fresh / after warm-up (tuned scale) / after state reload, "
@@ -36,6 +37,7 @@ SITES = {
 SIG_NONFINITE = "|nonfinite-proposal-accepted"
 SIG_MEAN = "|nonzero-prior-mean"
 SIG_DIM1 = "|dim1-raises"
+SIG_PROPMEAN = "|proposal-nonzero-mean"
 
 
 # ------------------------------------------------------------------------------------------------
@@ -202,14 +204,17 @@ class Driver:
     """One sampler site on one target.  Natural state lives in the sampler (experimental) or in
     self.cur (legacy: what _sample would pass to single_update)."""
 
-    def __init__(self, site, T, scale, x0, prior=None):
+    def __init__(self, site, T, scale, x0, prior=None, opts=None):
         import cuqi
         self.cuqi = cuqi
         self.site, self.info, self.T = site, SITES[site], T
         self.kind, self.iface = self.info["kind"], self.info["iface"]
         self.prior_spec = prior
+        self.opts = dict(opts or {})
         self.tune_ok = True
+        self.tune_log = []
         self.xi_seen = []
+        self.rng = None
         x0 = np.array(x0, dtype=float)
         self._build_target()
         self._build_sampler(scale, x0)
@@ -226,7 +231,17 @@ class Driver:
                     r = super().sample(*a, **k)
                     drv.xi_seen.append(np.array(r, dtype=float).reshape(-1))
                     return r
-            self.prior = SpyGaussian(np.array(ps["mean"], dtype=float), float(ps["cov"]), name="x")
+            class SpyNormal(cuqi.distribution.Normal):
+                def sample(self, *a, **k):
+                    r = super().sample(*a, **k)
+                    drv.xi_seen.append(np.array(r, dtype=float).reshape(-1))
+                    return r
+            form = ps.get("form", "scalar")
+            if form == "normal":            # independent normals given by standard deviations
+                self.prior = SpyNormal(np.array(ps["mean"], dtype=float), np.array(ps["std"], dtype=float), name="x")
+            else:
+                cov = float(ps["cov"]) if form == "scalar" else np.array(ps["cov"], dtype=float)
+                self.prior = SpyGaussian(np.array(ps["mean"], dtype=float), cov, name="x")
             if T.kind == "lin":
                 model = cuqi.model.LinearModel(T.A)
                 y = cuqi.distribution.Gaussian(model, 1.0 / T.lam, name="y")
@@ -239,7 +254,7 @@ class Driver:
             else:
                 self.lik = cuqi.likelihood.UserDefinedLikelihood(dim=T.dim, logpdf_func=T.f)
             self.post = cuqi.distribution.Posterior(self.lik, self.prior)
-            self.target = self.post
+            self.target = (self.lik, self.prior) if (self.opts.get("pcn_tuple") and self.iface == "leg" and T.kind != "lin") else self.post
             self.eval_f = lambda x: float(np.ravel(self.lik.logd(np.asarray(x, dtype=float)))[0])
             self.eval_g = lambda x: np.zeros(0)
         elif T.kind == "lin":
@@ -255,7 +270,10 @@ class Driver:
             self.eval_f = lambda x: float(np.ravel(cuqi.distribution.Posterior.logd(self.target, np.asarray(x, dtype=float)))[0])
             self.eval_g = lambda x: np.array(self.target.gradient(np.asarray(x, dtype=float)), dtype=float).reshape(-1)
         else:
-            self.target = cuqi.distribution.UserDefinedDistribution(dim=T.dim, logpdf_func=T.f, gradient_func=T.g)
+            if self.opts.get("target_form") == "lambda" and self.iface == "leg" and self.kind in ("mh", "cw"):
+                self.target = T.f            # plain callable: the sampler wraps it itself and needs dim=
+            else:
+                self.target = cuqi.distribution.UserDefinedDistribution(dim=T.dim, logpdf_func=T.f, gradient_func=T.g)
             self.eval_f = lambda x: (T.f(x), T.calls.pop())[0]
             self.eval_g = T.g
 
@@ -264,23 +282,70 @@ class Driver:
         E, Lg = cuqi.experimental.mcmc, cuqi.sampler
         drv = self
         sc = np.array(scale, dtype=float) if isinstance(scale, (list, tuple, np.ndarray)) else float(scale)
+        o = self.opts
+        d = self.T.dim
+        # ---- the declaration style of the initial point ----
+        xf = o.get("x0form", "array")
+        x0arg = {"array": x0, "list": [float(v) for v in x0], "tuple": tuple(float(v) for v in x0), "none": None,
+                 "cuqi": cuqi.array.CUQIarray(x0.copy(), geometry=cuqi.geometry._DefaultGeometry1D(d))}[xf]
+        if xf == "none":
+            x0 = np.ones(d)
+        # ---- optional proposal= ----
+        kw = {}
+        pr = o.get("proposal")
+        if pr is not None and self.kind == "mh":
+            class SpyProposal(cuqi.distribution.Gaussian):
+                def sample(self, *a, **k):
+                    r = super().sample(*a, **k)
+                    drv.xi_seen.append(np.array(r, dtype=float).reshape(-1))
+                    return r
+            cov = float(pr["cov"]) if np.ndim(pr["cov"]) == 0 else np.array(pr["cov"], dtype=float)
+            kw["proposal"] = SpyProposal(np.array(pr["mean"], dtype=float), cov)
+        elif pr is not None and self.kind == "cw":
+            if pr == "locscale":
+                kw["proposal"] = cuqi.distribution.Normal(mean=lambda location: location, std=lambda scale: scale, geometry=d)
+            elif pr == "meanstd" and self.iface == "leg":
+                kw["proposal"] = cuqi.distribution.Normal(geometry=d)
+            elif pr == "callable" and self.iface == "leg":
+                kw["proposal"] = lambda x_, s_: np.random.normal(x_, s_)
+        # ---- optional rng= (legacy MALA / ULA) ----
+        rm = o.get("rng")
+        if rm and self.iface == "leg" and self.kind in ("mala", "ula"):
+            self.rng = make_rng(rm, o.get("rng_seed", 0))
+            kw["rng"] = self.rng
+        if o.get("target_form") == "lambda" and self.iface == "leg" and self.kind in ("mh", "cw") and self.T.kind != "lin":
+            kw["dim"] = d
         if self.iface == "exp":
             base = {"mh": E.MH, "cw": E.CWMH, "pcn": E.PCN, "mala": E.MALA, "ula": E.ULA}[self.kind]
 
             class Spy(base):                                   # tune() must leave point and caches alone
-                def tune(self, *a, **k):
+                def tune(self, skip_len, update_count):
                     before = drv._snapshot(self)
-                    r = super().tune(*a, **k)
+                    tname = "lambd" if drv.kind == "pcn" else "_scale_temp"
+                    rec = None
+                    if drv.kind in ("mh", "pcn", "cw"):
+                        if drv.kind == "cw":
+                            win = self._acc[update_count * skip_len:(update_count + 1) * skip_len]
+                        else:
+                            win = self._acc[-skip_len:]
+                        rec = {"kind": drv.kind, "k": int(update_count) + 1, "dim": drv.T.dim,
+                               "window": [[int(b) for b in np.ravel(w)] for w in win],
+                               "temp0": np.array(getattr(self, tname), dtype=float).reshape(-1).tolist()}
+                    r = super().tune(skip_len, update_count)
                     after = drv._snapshot(self)
                     if not drv._same(before, after):
                         drv.tune_ok = False
+                    if rec is not None:
+                        rec["temp1"] = np.array(getattr(self, tname), dtype=float).reshape(-1).tolist()
+                        rec["scale1"] = np.array(self.scale, dtype=float).reshape(-1).tolist()
+                        drv.tune_log.append(rec)
                     return r
             Spy.__name__ = base.__name__
-            self.s = Spy(self.target, scale=sc, initial_point=x0)
+            self.s = Spy(self.target, scale=sc, initial_point=x0arg, **kw)
             self.s.initialize()
         else:
             cls = {"mh": Lg.MH, "cw": Lg.CWMH, "pcn": Lg.pCN, "mala": Lg.MALA, "ula": Lg.ULA}[self.kind]
-            self.s = cls(self.target, scale=sc, x0=x0)
+            self.s = cls(self.target, scale=sc, x0=x0arg, **kw)
             self.cur = (x0.copy(), self.eval_f(x0), self.eval_g(x0) if self.kind in ("mala", "ula") else np.zeros(0))
         self.T.calls.clear()
 
@@ -302,6 +367,9 @@ class Driver:
         if self.kind == "cw" and sc.size != self.T.dim:
             sc = np.broadcast_to(sc, (self.T.dim,)).copy()
         return sc
+
+    def vector_scale(self):
+        return self.kind == "mh" and np.size(self.s.scale) > 1
 
     def state(self):
         """(x, logd, grad) as cached by the sampler"""
@@ -328,7 +396,7 @@ class Driver:
             if self.kind in ("mala", "ula"):
                 s.current_target_grad = np.array(gr, dtype=float).copy()
         if scale is not None:
-            self.s.scale = np.array(scale, dtype=float) if self.kind == "cw" else float(np.ravel(scale)[0])
+            self.s.scale = np.array(scale, dtype=float) if (self.kind == "cw" or np.size(scale) > 1) else float(np.ravel(scale)[0])
 
     # ---- histories ----
     def history(self, h):
@@ -348,7 +416,7 @@ class Driver:
                 if h["type"] == "warmup":
                     self.s.warmup(h["n"])
                 else:                                   # reload: state of ANOTHER sampler object that ran n steps
-                    other = Driver(self.site, self.T, h["scale2"], h["x02"], prior=self.prior_spec)
+                    other = Driver(self.site, self.T, h["scale2"], h["x02"], prior=self.prior_spec, opts=self.opts)
                     other.s.sample(h["n"])
                     st = other.s.get_state()
                     self.s.set_state(st)
@@ -391,6 +459,8 @@ class Driver:
             return None
         x0, ld0, gr0 = self.state()
         err = None
+        if self.rng is not None:
+            self.rng.begin(z, us, rec)
         with ScriptedRandom(seed=1, script=script) as R, np.errstate(all="ignore"), _quiet():
             try:
                 if self.iface == "exp":
@@ -407,6 +477,12 @@ class Driver:
                 err = "%s: %s" % (type(e).__name__, e)
                 acc, out = None, None
         log = [k for (k, _, _) in R.log]
+        us_obs = None
+        if self.rng is not None:
+            if log:                                   # a sampler given rng= must not touch the global stream
+                rec["unexpected"] += ["global:" + k for k in log]
+            log = list(self.rng.log)
+            us_obs = list(self.rng.us_seen)
         if err is None and self.iface == "leg":
             x1 = np.array(out[0], dtype=float).reshape(-1)
             ld1 = float(np.ravel(out[1])[0])
@@ -419,11 +495,69 @@ class Driver:
             x1, ld1, gr1 = x0, ld0, gr0
         return {"acc": acc, "x0": x0, "ld0": ld0, "gr0": gr0, "x1": x1, "ld1": ld1, "gr1": gr1, "err": err,
                 "stars": [c.copy() for c in T.calls], "log": log, "loc": rec["loc"], "std": rec["std"], "ret": rec["ret"],
-                "xi": self.xi_seen[0].copy() if self.xi_seen else None, "unexpected": rec["unexpected"]}
+                "xi": self.xi_seen[0].copy() if self.xi_seen else None, "unexpected": rec["unexpected"], "us_obs": us_obs}
+
+
+class _RngMixin:
+    """records every draw made through a user-supplied generator; scripted mode returns loc + std*z and the given u"""
+    def begin(self, z, us, rec):
+        self.z, self.us, self.rec = np.array(z, dtype=float), list(us), rec
+        self.log, self.us_seen = [], []
+
+    def _normal(self, real, loc, std, size):
+        loc_a, std_a = np.array(loc, dtype=float), np.array(std, dtype=float)
+        self.log.append("normal")
+        if self.scripted and self.__dict__.get("z") is not None:
+            ret = loc_a + std_a * self.z
+            ret = np.array(ret, dtype=float).reshape(size) if size is not None else ret
+        else:
+            ret = real(loc, std, size)
+        rec = self.__dict__.setdefault("rec", {})
+        rec["loc"], rec["std"], rec["ret"] = loc_a.reshape(-1), std_a.reshape(-1), np.array(ret, dtype=float).reshape(-1)
+        return ret
+
+    def _uniform(self, real, low, high, size):
+        self.log.append("uniform")
+        if self.scripted and self.__dict__.get("us") is not None:
+            u = self.us.pop(0) if self.us else 0.5
+            ret = np.full(size, u) if size is not None else u
+        else:
+            ret = real(low, high, size)
+        self.us_seen.append(float(np.ravel(ret)[0]))
+        return ret
+
+
+def make_rng(mode, seed):
+    if mode == "generator":
+        class RecGen(_RngMixin, np.random.Generator):
+            scripted = False
+
+            def normal(self, loc=0.0, scale=1.0, size=None):
+                return self._normal(super().normal, loc, scale, size)
+
+            def uniform(self, low=0.0, high=1.0, size=None):
+                return self._uniform(super().uniform, low, high, size)
+        r = RecGen(np.random.PCG64(seed))
+    else:
+        class RecRS(_RngMixin, np.random.RandomState):
+            scripted = (mode == "scripted")
+
+            def normal(self, loc=0.0, scale=1.0, size=None):
+                return self._normal(super().normal, loc, scale, size)
+
+            def uniform(self, low=0.0, high=1.0, size=None):
+                return self._uniform(super().uniform, low, high, size)
+        r = RecRS(seed)
+    r.log, r.us_seen = [], []
+    return r
 
 
 def scratch(drv, scale):
-    return Driver(drv.site, drv.T, scale, np.ones(drv.T.dim), prior=drv.prior_spec)
+    o = dict(drv.opts)
+    if o.get("rng"):
+        o["rng"] = "scripted"            # same code path (a generator object is supplied), controllable noise
+    o["x0form"] = "array"
+    return Driver(drv.site, drv.T, scale, np.ones(drv.T.dim), prior=drv.prior_spec, opts=o)
 
 
 def propose(scr, x, z):
@@ -475,8 +609,20 @@ def log_pi(drv, x):
     if drv.kind == "pcn":
         ps = drv.prior_spec
         d = np.asarray(x, dtype=float) - np.array(ps["mean"], dtype=float)
-        v += -0.5 * float(d @ d) / float(ps["cov"])
+        v += -0.5 * float(d @ prior_prec(ps) @ d)
     return v
+
+
+def prior_prec(ps):
+    n = len(ps["mean"])
+    form = ps.get("form", "scalar")
+    if form == "normal":
+        return np.diag(1.0 / np.array(ps["std"], dtype=float) ** 2)
+    if form == "scalar":
+        return np.eye(n) / float(ps["cov"])
+    if form == "vector":
+        return np.diag(1.0 / np.array(ps["cov"], dtype=float))
+    return np.linalg.inv(np.array(ps["cov"], dtype=float))
 
 
 def true_log_ratio(drv, scr, x, xs):
@@ -606,16 +752,21 @@ def build_case(ctx, spec):
     kind, legacy = info["kind"], info["iface"] == "leg"
     T = Tgt(spec["target"])
     st = guards(ctx)
-    drv = Driver(site, T, spec["scale"], spec["x0"], prior=spec.get("prior"))
+    opts = spec.get("opts") or {}
+    real_rng = opts.get("rng") in ("randomstate", "generator")
+    drv = Driver(site, T, spec["scale"], spec["x0"], prior=spec.get("prior"), opts=opts)
+    prev_obj = drv.s.current_point if not legacy else None          # keep-alive: the object holding the state before
     drv.history(spec["hist"])
     x0, ld0, gr0 = drv.state()
     if not np.all(np.abs(x0) < 1e4):
         # the unadjusted chain (ULA) diverged during its history run: values of 1e10+ make 1e-9 comparisons meaningless;
         # generator domain: |x| < 1e4 -- restart from the fresh state
         spec = dict(spec, hist=dict(spec["hist"], type="fresh"))
-        drv = Driver(site, T, spec["scale"], spec["x0"], prior=spec.get("prior"))
+        drv = Driver(site, T, spec["scale"], spec["x0"], prior=spec.get("prior"), opts=opts)
         x0, ld0, gr0 = drv.state()
     sc = drv.scale()
+    vscale = drv.vector_scale()
+    sc_arg = sc if (kind == "cw" or vscale) else float(sc[0])
     d = T.dim
     spec = dict(spec)
     if spec.get("steer"):
@@ -677,7 +828,7 @@ def build_case(ctx, spec):
             pt = [frac(float(x0[j])) + frac(float(sc[j])) * frac(float(z[j])) if mask[j] else frac(float(x0[j])) for j in range(d)]
             exact = exact and T.exact_at(pt)
     if kind in ("mh", "pcn", "mala"):
-        scr = scratch(drv, sc if kind == "cw" else float(sc[0]))
+        scr = scratch(drv, sc_arg)
         xs_pred = propose(scr, x0, z)
         exact = exact and xs_pred is not None and T.exact_at(fr(xs_pred))
         if exact and kind == "mala":
@@ -694,7 +845,7 @@ def build_case(ctx, spec):
             if rho is not None and not math.isnan(rho):
                 thr = min(0.0, rho)
         thr_code = None
-        if kind == "pcn" and xs_pred is not None:
+        if kind in ("pcn", "mh") and xs_pred is not None:
             a_, b_ = T.F(fr(x0)), T.F(fr(xs_pred))
             if not isinstance(a_, str) and not isinstance(b_, str):
                 thr_code = min(0.0, float(b_ - a_))
@@ -735,7 +886,21 @@ def build_case(ctx, spec):
         logus = [float(np.log(u)) for u in us]
 
     # ---- the transition ----
+    if not legacy:
+        prev_obj = drv.s.current_point
+        prev_val = np.array(prev_obj, dtype=float).copy()
     o = drv.step(z, us)
+    if not legacy and o["err"] is None and not np.array_equal(np.array(prev_obj, dtype=float).reshape(-1), prev_val.reshape(-1)):
+        flag("the transition modified, in place, the array object that held the previous state (recorded samples alias it)", "|state-cache")
+    if real_rng and o["err"] is None:
+        exact = False
+        if o["us_obs"]:
+            us = list(o["us_obs"])
+            spec["u"] = [float(u) for u in us]
+            with np.errstate(all="ignore"):
+                logus = [float(np.log(u)) for u in us]
+        if kind == "mala" and o["stars"]:
+            rho = true_log_ratio(drv, scr, x0, o["stars"][0]) if not isinstance(log_pi(drv, x0), str) else None
     spec["exact"] = exact
     tolq = "0" if exact else "tol9"
     Tc = T.coq()
@@ -743,6 +908,9 @@ def build_case(ctx, spec):
     bad_log = any(k not in KCODE for k in o["log"]) or bool(o["unexpected"])
     x1, ld1, gr1 = o["x1"], o["ld1"], o["gr1"]
     cell = "%s/%s%s/%s/d%d" % (site, T.kind, "" if T.hole is None else "+" + T.hole[2], spec["hist"]["type"], d)
+    if spec.get("optcell"):
+        cell = "%s/opt:%s" % (site, spec["optcell"])
+    o["tune_log"] = drv.tune_log
     trivial = bool(np.all(z == 0))
 
     if o["err"] is not None and not (kind == "ula" and legacy):
@@ -757,7 +925,9 @@ def build_case(ctx, spec):
             flag("the target was not evaluated during the transition", "|accept-rule")
         else:
             e_star = T.F(fr(xs))
-            if is_bad(e_star) and acc:
+            if (is_bad(e_star) or e_star == "pinf") and acc:
+                # NaN / -inf: the property's last sentence; +inf: not a density value -- the samplers' documented guard
+                # (`not np.isinf`) refuses it, and so does the oracle
                 flag("proposal %s with target log-density %s was accepted (current log-density %r, log u = %r)"
                      % (xs.tolist(), e_star, ld0, logus[0]), SIG_NONFINITE)
             elif rho is not None and not math.isnan(rho) and not isinstance(e_star, str):
@@ -770,6 +940,8 @@ def build_case(ctx, spec):
                         s_ = "|accept-rule"
                         if kind == "pcn" and any(v != 0 for v in spec["prior"]["mean"]):
                             s_ = SIG_MEAN
+                        if kind == "mh" and opts.get("proposal") and any(v != 0 for v in opts["proposal"]["mean"]):
+                            s_ = SIG_PROPMEAN
                         flag("x=%s x'=%s log u=%.12g: MH log-ratio of the proposal actually used = %.12g so the transition must %s, "
                              "the sampler %s" % (x0.tolist(), xs.tolist(), lu, rho, "accept" if exp_acc else "reject",
                                                  "accepted" if acc else "rejected"), s_)
@@ -799,7 +971,7 @@ def build_case(ctx, spec):
                 xs_[j] = frac(float(o["ret"][j]))
                 new = T.F(xs_)
                 lu = logus[j]
-                if is_bad(new) and accs[j]:
+                if (is_bad(new) or new == "pinf") and accs[j]:
                     flag("component %d: proposal %s with target log-density %s was accepted (running log-density %s, log u = %r)"
                          % (j, [float(v) for v in xs_], new, cur, lu), SIG_NONFINITE)
                 elif not isinstance(new, str) and not isinstance(cur, str):
@@ -824,7 +996,7 @@ def build_case(ctx, spec):
                 flag("after acceptance state/caches are not the proposal and its evaluations", "|state-cache")
             if not acc and not (np.array_equal(x1, x0) and np.array_equal(gr1, gr0)):
                 flag("after rejection the state changed", "|state-cache")
-            if not legacy and xs is not None and is_bad(e_star) and acc:
+            if not legacy and xs is not None and (is_bad(e_star) or e_star == "pinf") and acc:
                 flag("ULA accepted a proposal with log-density %s" % e_star, SIG_NONFINITE)
 
     # ---- the model on the same inputs ----
@@ -832,8 +1004,10 @@ def build_case(ctx, spec):
     if bad_log:
         expr = "false"
     elif kind == "mh":
-        expr = "check_mh %s %s %s %s %s %s %s %s %s %s %s %s" % (
-            tolq, Tc, g, cq(float(sc[0])), cstate(x0, ld0, gr0), cqvec(z), cext(logus[0]),
+        xi_in = o["xi"] if (opts.get("proposal") and o["xi"] is not None) else z
+        expr = "%s %s %s %s %s %s %s %s %s %s %s %s %s" % (
+            "check_mh_v" if vscale else "check_mh",
+            tolq, Tc, g, cqvec(sc) if vscale else cq(float(sc[0])), cstate(x0, ld0, gr0), cqvec(xi_in), cext(logus[0]),
             cqvec(o["stars"][0] if o["stars"] else []), cstate(x1, ld1, gr1), cbool(o["acc"]), logc, cbool(legacy))
     elif kind == "cw":
         expr = "check_cwmh %s %s %s %s %s %s %s %s %s %s %s %s %s" % (
@@ -843,10 +1017,11 @@ def build_case(ctx, spec):
     elif kind == "pcn":
         s_ = float(sc[0])
         a_ = float(np.sqrt(1 - s_ ** 2))
-        expr = "check_pcn %s %s %s %s %s %s %s %s %s %s %s %s %s %s %s" % (
+        expr = "check_pcn %s %s %s %s %s %s %s %s %s %s %s %s %s %s %s %s" % (
             tolq, Tc, cbool(st["c"][site]), g, cq(a_), cq(s_), cqvec(spec["prior"]["mean"]), cstate(x0, ld0, gr0),
             cqvec(o["xi"] if o["xi"] is not None else []), cext(logus[0]), cqvec(o["stars"][0] if o["stars"] else []),
-            cstate(x1, ld1, gr1), cbool(o["acc"]), logc, cbool(legacy))
+            cstate(x1, ld1, gr1), cbool(o["acc"]), logc, cbool(legacy),
+            cnat(5 if spec["prior"].get("form") == "normal" else 2))
     elif kind == "mala":
         expr = "check_mala %s %s %s %s %s %s %s %s %s %s %s %s %s" % (
             tolq, Tc, g, cq(float(sc[0])), cstate(x0, ld0, gr0), cqvec(o["ret"] if o["ret"] is not None else []), cext(logus[0]),
@@ -973,13 +1148,18 @@ def finalize_spec(ctx, spec):
     pow4 = lambda v: pow2(v) and frac(math.sqrt(v)) ** 2 == frac(v)
     ex = spec["hist"]["type"] == "fresh" and spec["target"]["kind"] in ("quad", "quart")
     if kind in ("mh",):
-        ex = ex and pow2(sc)
+        ex = ex and (all(pow2(v) for v in sc) if isinstance(sc, list) else pow2(sc))
     elif kind == "cw":
         ex = ex and all(pow2(v) for v in (sc if isinstance(sc, list) else [sc]))
     elif kind == "pcn":
-        ex = ex and sc == 1.0 and pow4(spec["prior"]["cov"])
+        ex = ex and sc == 1.0 and spec["prior"].get("form", "scalar") == "scalar" and pow4(spec["prior"]["cov"])
     else:
         ex = ex and pow4(sc)
+    o_ = spec.get("opts") or {}
+    if o_.get("proposal") and kind == "mh":
+        ex = False
+    if kind == "mh" and isinstance(sc, list):
+        ex = ex and all(pow2(v) for v in sc)
     spec["exact"] = bool(ex)
     return spec
 
@@ -994,6 +1174,7 @@ def run(ctx):
     st = guards(ctx)
     ctx.note("model variants on this tree: guards %s, centred pCN proposal %s" % (st["g"], st["c"]))
     n_per = ctx.n(5, 40)
+    tune_recs = []
     idx = 0
     for site in SITES:
         kind = SITES[site]["kind"]
@@ -1011,9 +1192,12 @@ def run(ctx):
                     for _ in range(reps):
                         idx += 1
                         spec = finalize_spec(ctx, gen_spec(ctx, site, fam, hc, hist, idx))
-                        c, _ = build_case(ctx, spec)
+                        c, ob = build_case(ctx, spec)
                         c.meta = _jsonable(c.meta)
                         cases.append(c)
+                        tl = ob.get("tune_log", [])
+                        if tl and len(tune_recs) < ctx.n(120, 1200):
+                            tune_recs += [(site, tl[0])] + ([(site, tl[-1])] if len(tl) > 1 else [])
     # CWMH with a one-dimensional target (both interfaces)
     for site in ("E.CWMH", "L.CWMH"):
         spec = {"site": site, "target": {"kind": "quad", "P": [[1.0]], "m": [0.0], "c": 0, "hole": None}, "prior": None, "scale": 0.5,
@@ -1021,6 +1205,10 @@ def run(ctx):
         c, _ = build_case(ctx, spec)
         c.meta = _jsonable(c.meta)
         cases.append(c)
+    oc, trecs = option_cases(ctx)
+    cases += oc
+    cases += tune_cases(ctx, tune_recs + trecs)
+    cases += legacy_adapt_cases(ctx)
     cases += chain_cases(ctx)
     cases += lattice_cases(ctx)
     return Result(cases=cases, rule=RULE,
@@ -1051,6 +1239,190 @@ def _jsonable(o):
     if isinstance(o, float) and (math.isnan(o) or math.isinf(o)):
         return repr(o)
     return o
+
+
+# ------------------------------------------------------------------------------------------------
+# optional constructor arguments that select another code path (every cell enumerated; all run in the quick tier)
+# ------------------------------------------------------------------------------------------------
+def option_cells():
+    cells = []
+    for site in ("L.MALA", "L.ULA"):
+        for mode in ("scripted", "randomstate", "generator"):
+            cells.append((site, "rng=" + mode, {"rng": mode}, {}))
+    for site in SITES:
+        for xf in ("list", "none", "cuqi"):
+            cells.append((site, "x0=" + xf, {"x0form": xf}, {}))
+    for site in ("L.MH", "L.CWMH"):
+        cells.append((site, "target=lambda+dim", {"target_form": "lambda"}, {}))
+        cells.append((site, "target=lambda+dim,x0=none", {"target_form": "lambda", "x0form": "none"}, {}))
+    for site in ("E.MH", "L.MH"):
+        cells.append((site, "proposal=gauss-scalar", {"proposal": {"mean": 0, "cov": "scalar"}}, {}))
+        cells.append((site, "proposal=gauss-vector", {"proposal": {"mean": 0, "cov": "vector"}}, {}))
+        cells.append((site, "proposal=gauss-matrix", {"proposal": {"mean": 0, "cov": "matrix"}}, {}))
+        cells.append((site, "proposal=gauss-nonzero-mean", {"proposal": {"mean": 1, "cov": "matrix"}}, {}))
+        cells.append((site, "scale=vector", {}, {"vscale": True}))
+    cells.append(("E.CWMH", "proposal=normal-locscale", {"proposal": "locscale"}, {}))
+    for pr in ("locscale", "meanstd", "callable"):
+        cells.append(("L.CWMH", "proposal=normal-" + pr, {"proposal": pr}, {}))
+    for site in ("E.PCN", "L.pCN"):
+        for form in ("scalar", "vector", "matrix", "normal"):
+            for mean in (0, 1):
+                cells.append((site, "prior=%s,mean%s0" % (form, "=" if mean == 0 else "!="), {}, {"prior_form": form, "prior_mean": mean}))
+    cells.append(("L.pCN", "target=tuple", {"pcn_tuple": True}, {}))
+    for site in ("E.MH", "L.MH", "E.CWMH", "L.CWMH", "E.MALA", "L.MALA", "E.ULA", "L.ULA"):
+        for k in (-20, 20):
+            cells.append((site, "magnitude=2^%d" % k, {}, {"mag": k}))
+    return cells
+
+
+def spd(rng, d, form):
+    if form == "scalar":
+        return rng.choice([0.25, 4.0, 0.5])
+    if form == "vector":
+        return [rng.choice([0.25, 1.0, 4.0, 0.5]) for _ in range(d)]
+    L_ = np.array([[rng.randint(-1, 1) if j < i else (rng.choice([0.5, 1, 2]) if j == i else 0) for j in range(d)] for i in range(d)], dtype=float)
+    return (L_ @ L_.T).tolist()
+
+
+def option_cases(ctx):
+    rng = ctx.rng
+    out, tune_recs = [], []
+    idx = 0
+    for (site, name, opts, extra) in option_cells():
+        kind = SITES[site]["kind"]
+        for rep_ in range(ctx.n(2, 8)):
+            idx += 1
+            fam = rng.choice(["quad", "quart"]) if not extra.get("mag") else "quad"
+            hist = "fresh" if (extra.get("mag") or rep_ % 2 == 0) else rng.choice(["warmup", "reload"])
+            if opts.get("rng") == "scripted":
+                hist = "fresh"
+            spec = gen_spec(ctx, site, fam, None, hist, idx)
+            d = len(spec["x0"])
+            o = {}
+            for k_, v_ in opts.items():
+                o[k_] = v_
+            if isinstance(o.get("proposal"), dict):
+                o["proposal"] = {"mean": [0.0] * d if o["proposal"]["mean"] == 0 else [float(rng.choice([-1, 1, 2])) for _ in range(d)],
+                                 "cov": spd(rng, d, o["proposal"]["cov"])}
+                if any(o["proposal"]["mean"]):
+                    spec["ustrat"] = "between"
+            if o.get("rng"):
+                o["rng_seed"] = rng.randint(0, 10 ** 6)
+                spec["scale"] = rng.choice([0.3, 0.25, 0.5, 1 / 16]) if kind == "ula" else rng.choice([0.3, 0.25, 2.0, 0.5, 4.0])
+            if o.get("x0form") == "none":
+                spec["x0"] = [1.0] * d
+                if hist == "reload":
+                    spec["hist"]["x02"] = [1.0] * d
+            if extra.get("vscale"):
+                spec["scale"] = [rng.choice([1.0, 0.5, 0.25, 2.0, 0.3]) for _ in range(d)]
+                spec["hist"]["type"] = "fresh"
+            if extra.get("prior_form"):
+                form = extra["prior_form"]
+                mean = [0.0] * d if extra["prior_mean"] == 0 else [float(rng.choice([-2, 1, 3])) for _ in range(d)]
+                if form == "normal":
+                    spec["prior"] = {"mean": mean, "form": "normal", "std": [rng.choice([0.5, 1.0, 2.0]) for _ in range(d)]}
+                else:
+                    spec["prior"] = {"mean": mean, "form": form, "cov": spd(rng, d, form)}
+                spec["ustrat"] = "between" if any(mean) else spec["ustrat"] if spec["ustrat"] != "between" else "rand"
+            if extra.get("mag"):
+                m_ = 2.0 ** extra["mag"]
+                t = spec["target"]
+                t["P"] = [[v / m_ / m_ for v in row] for row in t["P"]]
+                t["m"] = [v * m_ for v in t["m"]]
+                spec["x0"] = [v * m_ for v in spec["x0"]]
+                sc_ = spec["scale"]
+                f_ = m_ * m_ if kind in ("mala", "ula") else m_
+                spec["scale"] = [v * f_ for v in sc_] if isinstance(sc_, list) else sc_ * f_
+                if kind in ("mala", "ula") and not (frac(spec["scale"]).numerator == 1 or frac(spec["scale"]).denominator == 1):
+                    spec["scale"] = 0.25 * f_
+            spec["opts"], spec["optcell"] = o, name
+            spec = finalize_spec(ctx, spec)
+            c, ob = build_case(ctx, spec)
+            c.meta = _jsonable(c.meta)
+            out.append(c)
+            tune_recs += [(site, r_) for r_ in ob.get("tune_log", [])[:1]]
+    return out, tune_recs
+
+
+def cr(x):
+    f = frac(float(x))
+    return "(IZR (%d) / IZR %d)" % (f.numerator, f.denominator)
+
+
+TUNE_TAC = ("split; [unfold tune_temp, zeta, hat_acc, star_mh, star_pcn, star_cw; interval with (i_prec 80) | "
+            "unfold Rmin; destruct (Rle_dec _ _); lra].")
+
+
+def tune_cases(ctx, recs):
+    """one ENCLOSURE case per recorded tuning step and component: the adapted (unclipped) scale is the model's
+    exp(ln lam + zeta*(hat-star)) within 1e-9 relative, and scale = min(that, 1) exactly"""
+    out = []
+    for site, r in recs:
+        star = {"mh": "star_mh", "pcn": "star_pcn", "cw": "(star_cw %d)" % r["dim"]}[r["kind"]]
+        ncomp = len(r["temp0"])
+        for c in range(ncomp):
+            win = [w[c] if len(w) > c else w[0] for w in r["window"]]
+            a, n = sum(win), len(win)
+            lam, t1, s1 = r["temp0"][c], r["temp1"][c], r["scale1"][c if len(r["scale1"]) > c else 0]
+            fail = None
+            if not (0 < s1 <= 1) or not math.isfinite(s1):
+                fail = "after tune() the scale %r is outside (0, 1]" % s1
+            if n == 0 or not (lam > 0):
+                continue
+            expr = "(Rabs (tune_temp %s %d (hat_acc %d %d) %s - %s) <= %s /\\ %s = Rmin %s 1)%%R" % (
+                cr(lam), r["k"], a, n, star, cr(t1), cr(1e-9 * (1 + abs(t1))), cr(s1), cr(t1))
+            meta = {"op": "tune", "site": site, "rec": {k_: r[k_] for k_ in ("kind", "k", "dim", "temp0", "temp1", "scale1")},
+                    "component": c, "accepted": a, "window": n}
+            out.append(Case(expr=expr, meta=meta, cell="%s/tune" % site, kind="ENCLOSURE", tac=TUNE_TAC, impl_fail=fail,
+                            signature=(SITES[site]["sig"].rsplit(".", 1)[0] + ".tune|scale-out-of-bounds") if fail else ""))
+    return out
+
+
+def legacy_adapt_cases(ctx):
+    """legacy sample_adapt of MH / pCN: the scale after each of the first adaptation steps (read through the callback)
+    against the model run on the acceptance flags recovered from the returned chain"""
+    import cuqi
+    rng = ctx.rng
+    out = []
+    for site in ("L.MH", "L.pCN"):
+        kind = SITES[site]["kind"]
+        for rep_ in range(ctx.n(2, 10)):
+            d = rng.choice([1, 2])
+            tspec = gen_target(rng, "quad", d, None)
+            T = Tgt(tspec)
+            prior = {"mean": [0.0] * d, "cov": 1.0} if kind == "pcn" else None
+            scale0 = rng.choice([0.5, 0.25, 1.0, 0.125])
+            x0 = [dy(rng, -2, 1, 4) for _ in range(d)]
+            N = rng.choice([20, 30])
+            drv = Driver(site, T, scale0, x0, prior=prior)
+            seen = []
+            drv.s.callback = lambda smp, i_: seen.append((int(i_), float(np.ravel(drv.s.scale)[0])))
+            seed = rng.randint(0, 10 ** 6)
+            with ScriptedRandom(seed=seed), _quiet(), np.errstate(all="ignore"):
+                r = drv.s.sample_adapt(N)
+            S = np.array(r.samples, dtype=float)
+            acc = [1] + [int(not np.array_equal(S[:, k_ + 1], S[:, k_])) for k_ in range(S.shape[1] - 1)]
+            Na = int(0.1 * N)
+            star = "star_mh" if kind == "mh" else "star_pcn"
+            scales = dict(seen)
+            term = cr(scale0)
+            for j in range(3):
+                a = sum(acc[j * Na:(j + 1) * Na])
+                term = "(tune_temp %s %d (hat_acc %d %d) %s)" % (term, j + 1, a, Na, star)
+                obs = scales.get(Na * (j + 1))
+                if obs is None:
+                    break
+                fail = None if (0 < obs <= 1) else "legacy sample_adapt: scale %r outside (0, 1] after adaptation %d" % (obs, j + 1)
+                if obs < 1:
+                    expr = "(Rabs (%s - %s) <= %s)%%R" % (term, cr(obs), cr(1e-9))
+                else:
+                    expr = "(1 - %s <= %s)%%R" % (cr(1e-9), term)
+                meta = {"op": "legacy_adapt", "site": site, "target": tspec, "scale0": scale0, "x0": x0, "N": N, "seed": seed,
+                        "adaptation": j + 1, "acc": acc[:(j + 1) * Na], "observed_scale": obs}
+                out.append(Case(expr=expr, meta=_jsonable(meta), cell="%s/sample_adapt" % site, kind="ENCLOSURE",
+                                tac="unfold tune_temp, zeta, hat_acc, star_mh, star_pcn; interval with (i_prec 80).",
+                                impl_fail=fail, signature=(SITES[site]["sig"].rsplit(".", 1)[0] + ".sample_adapt|scale-out-of-bounds") if fail else ""))
+    return out
 
 
 # ------------------------------------------------------------------------------------------------
@@ -1128,7 +1500,13 @@ def chain_cases(ctx):
                 # legacy interface records no per-step flags: flag = (point changed or equal proposal) is not observable; compare points + final
                 xf, ldf = pts[-1], lds[-1]
                 grf = drv.eval_g(xf) if kind == "mala" else np.zeros(0)
+                # per-step accept flags recovered from the recorded chain: with non-zero scripted noise a transition was
+                # accepted iff the recorded point moved
                 obs_rec = None
+                if kind != "pcn" and all(any(v != 0 for v in z_) for z_ in zs[:ntr]):
+                    prev_ = [x_init] + pts[:-1]
+                    accs = [[bool(not np.array_equal(p_, q_))] for p_, q_ in zip(pts, prev_)]
+                    obs_rec = clist(["(%s, %s)" % (cqvec(p), clist([cbool(b) for b in a_])) for p, a_ in zip(pts, accs)])
             else:
                 xf, ldf, grf = drv.state()
                 obs_rec = clist(["(%s, %s)" % (cqvec(p), clist([cbool(b) for b in a_])) for p, a_ in zip(pts, accs)])
@@ -1138,7 +1516,7 @@ def chain_cases(ctx):
             if not close(ldf, ef):
                 fail = "after sample(%d) the cached log-density %r is not the target's value %r at the final point" % (n, ldf, Fval(ef))
             tolc = "0" if all(T.exact_at(fr(p)) for p in [x_init] + pts) and (kind != "mala" or d == 1) else "tol9"
-            if legacy:
+            if legacy and obs_rec is None:
                 expr = "check_chain_pts %s %s %s %s %s %s %s %s" % (tolc, T.coq(), kq, scq, cstate(x_init, ld_init, gr_init), draws,
                                                                    cstate(xf, ldf, grf), clist([cqvec(p) for p in pts]))
             else:
@@ -1281,8 +1659,18 @@ def _witness_dim1(ctx, site):
     return (c.impl_fail is not None and c.signature.endswith(SIG_DIM1)), (c.impl_fail or "transition performed")
 
 
+def _witness_propmean(ctx, site):
+    spec = {"site": site, "target": {"kind": "quad", "P": [[1.0]], "m": [0.0], "c": 0, "hole": None}, "prior": None,
+            "scale": 1.0, "x0": [0.0], "z": [0.5], "hist": {"type": "fresh", "seed": 0, "n": 0}, "ustrat": "between",
+            "hole_class": None, "exact": False, "opts": {"proposal": {"mean": [1.0], "cov": 1.0}}, "optcell": "proposal=gauss-nonzero-mean"}
+    c, _ = build_case(ctx, spec)
+    return (c.impl_fail is not None and c.signature.endswith(SIG_PROPMEAN)), (c.impl_fail or "decision agrees with the MH probability of the proposal used")
+
+
 def known_witnesses(ctx):
     out = {}
+    for site in ("E.MH", "L.MH"):
+        out[SITES[site]["sig"] + SIG_PROPMEAN] = _witness_propmean(ctx, site)
     for site in ("L.MH", "L.CWMH", "L.pCN", "E.PCN", "L.MALA"):
         out[SITES[site]["sig"] + SIG_NONFINITE] = _witness_nonfinite(site)
     for site in ("E.PCN", "L.pCN"):
